@@ -8,7 +8,7 @@ from .lin import CSet, le, ge, eq, lin
 
 
 class E4:
-    def __init__(self, facts, havoc=None, keep_instates=False, soft_widen=False, probes=(), rule_c06a=False, force_ret=None, opaque=()):
+    def __init__(self, facts, havoc=None, keep_instates=False, soft_widen=False, probes=(), rule_c06a=False, force_ret=None, opaque=(), assume_offsets_in_packet=False):
         """facts: analysis.facts.Facts"""
         OBLIGATIONS.clear()
         UNMODELLED.clear()
@@ -24,6 +24,7 @@ class E4:
         self.an.rule_c06a = rule_c06a
         self.an.force_ret = dict(force_ret or {})
         self.an.opaque = list(opaque)
+        self.an.assume_offsets_in_packet = assume_offsets_in_packet
         self.an.wrap_obligations = (facts.config == 'release')
         self.times = {}
 
